@@ -40,9 +40,10 @@ EnumNames   == {"@e", "@f"}
 TagNames    == {"@g", "@h"}
 ServerNames == {"@s", "@t"}
 Verbs       == IF Rich THEN {"GET", "POST", "PUT", "PATCH", "DELETE"} ELSE {"GET", "POST"}
-Annots      == {"", "note one", "collapsed text", "wide spaces"}
+Annots      == {"", "note one", "collapsed text", "wide spaces", "note *"}
                \* "collapsed text" is written with runs of blanks and a tab; "wide spaces" stands for a text with no-break,
-               \* ideographic and em spaces and a vertical tab (run/apidoc.py WIDE_TEXT): characters, not blanks
+               \* ideographic and em spaces and a vertical tab (run/apidoc.py WIDE_TEXT): characters, not blanks; "note *" is
+               \* written as the block annotation "/* note **/" (the closing delimiter directly after an asterisk of the text)
 Descs       == {"", "some text"}
 Codes       == IF Rich THEN {"200", "201", "404", "409", "500", "599"} ELSE {"200", "404"}
 
